@@ -1534,7 +1534,15 @@ class Cell(Bucket):
         if name not in self.identity_groups:
             self.identity_groups[name] = IdentityGroup(count)
         else:
-            self.identity_groups[name].adjust(count)
+            ident_group = self.identity_groups[name]
+            ident_group.adjust(count)
+            # Identities still held by apps (e.g. after the group was shrunk
+            # and grown again before a scheduling cycle invalidated them) are
+            # not available.
+            for app in six.itervalues(self.apps):
+                if (app.identity_group_ref is ident_group and
+                        app.identity is not None):
+                    ident_group.available.discard(app.identity)
 
     def remove_identity_group(self, name):
         """Remove identity group.
